@@ -16,7 +16,17 @@ Reading decisions (what is NOT demanded):
     docstring and not reported; the same template given to format_update_with is reported, because the property
     demands LenaTypeError/LenaValueError "never another exception" of format_update_with;
   * to_string: JSON values with string keys, leaves pairwise unequal in Python (1 / 1.0 / True are outside the claim);
-  * wrongly *typed* keys (DeleteContext(5), format_update_with(5, ..)) are outside the property's quantifier."""
+  * wrongly *typed* keys (DeleteContext(5), format_update_with(5, ..)) are outside the property's quantifier.
+
+Failure ids of the defects of DESIGN section 6 (one id per defect, whatever scope meets it):
+  row 2   get_recursively/dotted-string/empty-component-skipped   (sibling found here, other line of the same function:
+          get_recursively/dict/trailing-empty-component-dropped)
+  row 3   contains/path-through-scalar/raises-TypeError
+  row 4   format_context/malformed-template/IndexError-at-construction
+  row 18  DeleteContext/path-through-scalar/raises-TypeError  and  DeleteContext/empty-key/raises-IndexError
+  row 24  format_update_with/malformed-template/plain-ValueError
+A call of the real code that does not return within 2 s is a failure `.../raises-Timeout`; after 5 of them a scope is
+abandoned (`harness/scope-abandoned-...`) so that a non-terminating edit cannot stall the run."""
 import copy
 import itertools
 import os
